@@ -69,7 +69,7 @@ TableFull(fn) ==
 LongCases(n) ==
    /\ \A dt \in {"f32", "i32"} : LET X == CatT(dt, <<n>>, 3) s == SemAbs(X) IN P(CaseRec("long", "Abs", <<LowerT(X)>>, LowerA(s), "bits", <<Tag(s), dt, "long">>, <<>>))
    /\ LET X == CatT("f32", <<n>>, 1) s == SemRelu(X) IN P(CaseRec("long", "Relu", <<LowerT(X)>>, LowerA(s), "num", <<Tag(s), "f32", "long">>, <<>>))
-   /\ LET X == T("bool", <<n>>, [k \in 1..n |-> (k * k) % 3 = 1]) s == SemNot(X) IN P(CaseRec("long", "Not", <<X>>, s, "num", <<Tag(s), "long">>, <<>>))
+   /\ LET X == T("bool", <<n>>, [k \in 1..n |-> ((k % 7) * (k % 5)) % 3 = 1]) s == SemNot(X) IN P(CaseRec("long", "Not", <<X>>, s, "num", <<Tag(s), "long">>, <<>>))
    /\ \A dt \in {"f32", "i64"} : \A b \in {<<1>>, <<n>>} :
          LET X == T(dt, <<n>>, [k \in 1..n |-> Fin(((k * 7) % 23) - 11)])
              S == T(dt, b, [k \in 1..Size(b) |-> IF k % 3 = 0 THEN Fin(3) ELSE Fin(-2)])
